@@ -1,5 +1,6 @@
 import Driver.AstJson
 import Platypus.Spec.OutcomeSem
+import Platypus.Model.Check
 import Std.Data.HashMap
 open Lean Platypus
 
@@ -91,7 +92,23 @@ def load (j : Json) : Except String Loaded := do
          entry := J.hx (J.get j "entry"), point := pointOfJson (J.get j "point"),
          sigK := if sigk == 0 then none else some sigk, hasSig := J.bool (J.get j "hassig"), oracle := oracle }
 
-def envOf (g : GOracle) (l : Loaded) (orderCode : Nat) : Env :=
+def oracleOf (g : GOracle) (l : Loaded) : Bytes → Option Bytes := fun q =>
+  match alookup q l.oracle with
+  | some a => some a
+  | none => (g.get? (J.toHex q)).map J.hexBytes
+
+/-- model of the load-time check of every accepted script: collects the compiled grok sites;
+    `Except.error (inl q)` = engine question, `(inr msg)` = the model rejects a script the
+    implementation accepted -/
+def checkAll (g : GOracle) (l : Loaded) : Except (Sum Bytes String) (List (Nat × Bytes)) :=
+  l.scripts.foldlM (fun acc (name, stmts) =>
+    match checkScript 10000 (oracleOf g l) l.fns name stmts with
+    | .ok _ st => .ok (st.grok ++ acc)
+    | .err e => .error (.inr s!"model check rejects {bstr name}: {e.msg} at {(chainJson e).compress}")
+    | .fuel => .error (.inr "check out of fuel")
+    | .need q => .error (.inl q)) []
+
+def envOf (g : GOracle) (l : Loaded) (orderCode : Nat) (grok : List (Nat × Bytes) := []) : Env :=
   { bound := fun site => match l.bounds.find? (·.1 == site) with
       | some (_, name) => (match l.scripts.find? (·.1 == name) with | some (n, st) => some (n, st) | none => none)
       | none => none
@@ -99,14 +116,13 @@ def envOf (g : GOracle) (l : Loaded) (orderCode : Nat) : Env :=
     sigK := l.sigK
     hasSignal := l.hasSig
     mapOrder := fun i => (orderCode / 6 ^ i) % 6
-    oracle := fun q => match alookup q l.oracle with
-      | some a => some a
-      | none => (g.get? (J.toHex q)).map J.hexBytes }
+    grok := fun site => (grok.find? (·.1 == site)).map (·.2)
+    oracle := oracleOf g l }
 
-def runModel (g : GOracle) (l : Loaded) (orderCode : Nat) (fuel : Nat := 20000) : Obs :=
+def runModel (g : GOracle) (l : Loaded) (orderCode : Nat) (grok : List (Nat × Bytes) := []) (fuel : Nat := 20000) : Obs :=
   match l.scripts.find? (·.1 == l.entry) with
   | none => { outcome := "notloaded" }
-  | some (name, stmts) => obsOf (runScript (envOf g l orderCode) fuel name stmts { pt := l.point })
+  | some (name, stmts) => obsOf (runScript (envOf g l orderCode grok) fuel name stmts { pt := l.point })
 
 def outName : Sem.Out → String
   | .normal => "normal" | .brk => "brk" | .cont => "cont" | .exit => "exit"
@@ -198,6 +214,24 @@ def c10spec (j obs : Json) : Bool × String := Id.run do
     | none => pure ()
   return (true, "")
 
+/-- C14 evaluated on the implementation's own outputs: the run interrupted at poll `kfire` ends
+    (no timeout/crash), performs a prefix of the probe events and of the output of the
+    uninterrupted run -/
+def c14spec (j obs : Json) : Bool × String := Id.run do
+  let io := J.str (J.get obs "outcome")
+  if io != "ok" && io != "err" then return (false, s!"interrupted run ended with {io}")
+  -- (each task on the use() chain observes the signal by its own poll, so the poll count may exceed
+  --  kfire by the depth of the chain: not judged)
+  let ft := J.get j "full_trace"
+  if !J.isNull ft then
+    let full := (J.arr ft).toList.map (·.compress)
+    let got := (J.arr (J.get obs "trace")).toList.map (·.compress)
+    if !(got.isPrefixOf full) then return (false, "effects are not a prefix of the uninterrupted run")
+    let fo := J.str (J.get j "full_stdout")
+    let go := J.str (J.get obs "stdout")
+    if !(go.toList.isPrefixOf fo.toList) then return (false, "output is not a prefix of the uninterrupted run")
+  return (true, "")
+
 def run (g : GOracle) (j : Json) : Json :=
   match load j with
   | .error e => J.obj [("id", J.get j "id"), ("agree", false), ("spec", true), ("note", s!"load: {e}")]
@@ -207,8 +241,13 @@ def run (g : GOracle) (j : Json) : Json :=
     let io := J.str (J.get obs "outcome")
     -- generic part of the specification: never a panic, only language-typed values
     let c10 := if J.bool (J.get j "c10") && (io == "ok" || io == "err") then c10spec j obs else (true, "")
-    let specGeneric := io != "panic" && io != "crash" && implWellTyped obs && c10.1
-    let m0 := runModel g l 0
+    let c14 := if J.bool (J.get j "c14") then c14spec j obs else (true, "")
+    let specGeneric := io != "panic" && io != "crash" && implWellTyped obs && c10.1 && c14.1
+    match checkAll g l with
+    | .error (.inl q) => J.obj [("id", J.get j "id"), ("agree", true), ("spec", specGeneric), ("need", J.toHex q), ("note", "")]
+    | .error (.inr msg) => J.obj [("id", J.get j "id"), ("agree", false), ("spec", specGeneric), ("note", msg)]
+    | .ok grok =>
+    let m0 := runModel g l 0 grok
     match m0.need with
     | some q =>
       J.obj [("id", J.get j "id"), ("agree", true), ("spec", specGeneric), ("need", J.toHex q), ("note", "")]
@@ -223,14 +262,14 @@ def run (g : GOracle) (j : Json) : Json :=
         for c in [1:2 ^ bits] do
           let code := (List.range bits).foldl (fun acc i => acc + ((c / 2 ^ i) % 2) * 6 ^ i) 0
           n := n + 1
-          if diff (runModel g l code) obs l.hasSig == "" then return ("", n)
+          if diff (runModel g l code grok) obs l.hasSig == "" then return ("", n)
         -- … then all orders of the first 4 iterations (maps of 3 keys)
         for code in [1:6 ^ (min m0.mapIters 4)] do
           n := n + 1
-          if diff (runModel g l code) obs l.hasSig == "" then return ("", n)
+          if diff (runModel g l code grok) obs l.hasSig == "" then return ("", n)
         return (d0, n)
       let agree := d == ""
       J.obj [("id", J.get j "id"), ("agree", agree), ("spec", specGeneric && (agree || !strict)),
-             ("note", if c10.1 then d else c10.2 ++ " | " ++ d), ("orders", tried), ("moutcome", m0.outcome), ("semok", semCheck g l 0)]
+             ("note", if !c10.1 then c10.2 ++ " | " ++ d else if !c14.1 then c14.2 ++ " | " ++ d else d), ("orders", tried), ("moutcome", m0.outcome), ("semok", semCheck g l 0)]
 
 end DrvRun
